@@ -1,4 +1,194 @@
-import Anytree.Model.Walker
-import Anytree.Model.Search
+import Anytree.Spec.Walker
+import Anytree.Lemmas.Walker
+/-!
+# C15 — Walker.walk returns the unique tree path between two nodes
+-/
 namespace Anytree.Props.C15
+open Anytree Tree Walker Spec WalkerLemmas
+
+/-- parent of a node -/
+def par (x : WNode) : WNode := (x.1, x.2.dropLast)
+
+/-- in a tree the *filter* of `__calc_common` is the longest common prefix of the two root paths -/
+theorem calcCommon_eq_lcp (t : Nat) (a b : Addr) :
+    calcCommon (pathOf (t, a)) (pathOf (t, b)) = (prefixes (lcp2 a b)).map (fun p => (t, p)) := by
+  rw [pathOf_eq, pathOf_eq]
+  exact calcCommon_prefixes t a b
+
+/-- mirror = specification, for every pair of nodes -/
+theorem walk_eq_spec (s e : WNode) : Walker.walk s e = Spec.walkS s e := by
+  obtain ⟨t, a⟩ := s
+  obtain ⟨u, b⟩ := e
+  simp only [Walker.walk, Spec.walkS, rootOf_eq]
+  by_cases h : t = u
+  · subst h
+    simp only [ne_eq, not_true_eq_false, if_false, pathOf_eq, calcCommon_prefixes, List.getLast?_map,
+      getLast?_prefixes, Option.map_some, List.length_map, length_prefixes,
+      Prod.mk.injEq, true_and, below, ← List.map_drop, List.map_reverse]
+    congr 1
+    · by_cases ha : a = lcp2 a b
+      · rw [if_pos ha]
+        have : (prefixes a).drop ((lcp2 a b).length + 1) = [] := by
+          rw [← ha]; exact below_self a
+        rw [this]; rfl
+      · rw [if_neg ha]
+    · by_cases hb : b = lcp2 a b
+      · rw [if_pos hb]
+        have : (prefixes b).drop ((lcp2 a b).length + 1) = [] := by
+          rw [← hb]; exact below_self b
+        rw [this]; rfl
+      · rw [if_neg hb]
+  · simp [h]
+
+/-- nodes of different trees: WalkError -/
+theorem walk_different_trees (s e : WNode) (h : s.1 ≠ e.1) : Walker.walk s e = .walkError := by
+  rw [walk_eq_spec]; simp [Spec.walkS, h]
+
+/-- `common` is the lowest common ancestor: an ancestor-or-self of both, below every other one -/
+theorem common_is_lca (a b : Addr) :
+    lcp2 a b <+: a ∧ lcp2 a b <+: b ∧ ∀ d, d <+: a → d <+: b → d <+: lcp2 a b :=
+  ⟨lcp2_prefix_left a b, lcp2_prefix_right a b, fun d => prefix_lcp2 d a b⟩
+
+/-- start or end itself when one is an ancestor of the other -/
+theorem common_of_ancestor (a b : Addr) (h : a <+: b) : lcp2 a b = a := lcp2_of_prefix a b h
+
+/-- consecutive nodes of `below c a` are parent and child -/
+theorem below_step (c a : Addr) (k : Nat) (h : k + 1 < (below c a).length) :
+    ((below c a)[k + 1]).dropLast = (below c a)[k]'(by omega) := by
+  rw [below_getElem, below_getElem, List.dropLast_eq_take, List.take_take, List.length_take]
+  rw [length_below] at h
+  congr 1
+  omega
+
+theorem below_eq_nil_iff {c a : Addr} (hc : c <+: a) : below c a = [] ↔ a = c := by
+  constructor
+  · intro h
+    have hl := length_below c a
+    rw [h] at hl
+    have := hc.length_le
+    have hc' := List.prefix_iff_eq_take.1 hc
+    rw [hc', show c.length = a.length by simp at hl; omega]
+    simp
+  · rintro rfl; exact below_self a
+
+theorem below_head {c a : Addr} (hc : c <+: a) (h : 0 < (below c a).length) :
+    ((below c a)[0]).dropLast = c := by
+  rw [below_getElem, List.dropLast_eq_take, List.take_take, List.length_take]
+  rw [length_below] at h
+  have hc' := List.prefix_iff_eq_take.1 hc
+  conv => rhs; rw [hc']
+  congr 1
+  omega
+
+theorem below_last (c a : Addr) (h : 0 < (below c a).length) :
+    (below c a)[(below c a).length - 1] = a := by
+  rw [below_getElem]
+  rw [length_below] at h ⊢
+  apply List.take_of_length_le
+  omega
+
+/-- `upwards` lists the nodes from `start` up to but excluding `common`, each the child of the next;
+`downwards` the nodes below `common` down to `end`, each the parent of the next -/
+theorem walk_chains (t : Nat) (a b : Addr) :
+    ∃ up down, Spec.walkS (t, a) (t, b) = .ok up (t, lcp2 a b) down ∧
+      (∀ i (h : i + 1 < up.length), par (up[i]'(by omega)) = up[i + 1]) ∧
+      (up ≠ [] → up.head? = some (t, a) ∧ (up.getLast?.map par) = some (t, lcp2 a b)) ∧
+      (up = [] ↔ a = lcp2 a b) ∧
+      (∀ i (h : i + 1 < down.length), par (down[i + 1]) = down[i]'(by omega)) ∧
+      (down ≠ [] → down.getLast? = some (t, b) ∧ (down.head?.map par) = some (t, lcp2 a b)) ∧
+      (down = [] ↔ b = lcp2 a b) := by
+  have hca := lcp2_prefix_left a b
+  have hcb := lcp2_prefix_right a b
+  generalize hc : lcp2 a b = c at hca hcb
+  refine ⟨(below c a).reverse.map (fun p => (t, p)), (below c b).map (fun p => (t, p)), ?_, ?_, ?_, ?_, ?_, ?_, ?_⟩
+  · simp [Spec.walkS, hc]
+  · intro i h
+    simp only [List.length_map, List.length_reverse] at h
+    simp only [par, List.getElem_map, List.getElem_reverse, Prod.mk.injEq, true_and]
+    have := below_step c a ((below c a).length - 1 - (i + 1)) (by omega)
+    rw [← this]
+    congr 2
+    omega
+  · intro hne
+    have hpos : 0 < (below c a).length := by
+      apply List.length_pos_iff.2
+      intro h0; apply hne; simp [h0]
+    constructor
+    · rw [List.head?_eq_getElem?, List.getElem?_eq_getElem (by simpa using hpos)]
+      simp only [List.getElem_map, List.getElem_reverse, Nat.sub_zero]
+      rw [below_last c a hpos]
+    · rw [List.getLast?_eq_getElem?, List.getElem?_eq_getElem (by simp; omega)]
+      simp only [Option.map_some, par, List.getElem_map, List.getElem_reverse, List.length_map,
+        List.length_reverse, Nat.sub_self]
+      rw [below_head hca hpos]
+  · rw [← below_eq_nil_iff hca]; simp
+  · intro i h
+    simp only [List.length_map] at h
+    simp only [par, List.getElem_map, Prod.mk.injEq, true_and]
+    exact below_step c b i h
+  · intro hne
+    have hpos : 0 < (below c b).length := by
+      apply List.length_pos_iff.2
+      intro h0; apply hne; simp [h0]
+    constructor
+    · rw [List.getLast?_eq_getElem?, List.getElem?_eq_getElem (by simp; omega)]
+      simp only [List.getElem_map, List.length_map]
+      rw [below_last c b hpos]
+    · rw [List.head?_eq_getElem?, List.getElem?_eq_getElem (by simpa using hpos)]
+      simp only [Option.map_some, par, List.getElem_map]
+      rw [below_head hcb hpos]
+  · rw [← below_eq_nil_iff hcb]; simp
+
+/-- `upwards + (common,) + downwards` is a simple path: no node twice -/
+theorem walk_simple_path (t : Nat) (a b : Addr) (up down : List WNode) (c : WNode)
+    (h : Spec.walkS (t, a) (t, b) = .ok up c down) : (up ++ [c] ++ down).Nodup := by
+  simp only [Spec.walkS, ne_eq, not_true_eq_false, if_false, Res.ok.injEq] at h
+  obtain ⟨rfl, rfl, rfl⟩ := h
+  have inj : ∀ (l : List Addr), l.Nodup → (l.map (fun p => ((t, p) : WNode))).Nodup := by
+    intro l hl
+    exact List.Pairwise.map _ (fun p q hpq e => hpq (by simpa using e)) hl
+  have nb : ∀ x : Addr, (below (lcp2 a b) x).Nodup := fun x =>
+    List.Nodup.sublist (List.drop_sublist _ _) (nodup_prefixes x)
+  rw [List.append_assoc, List.nodup_append]
+  refine ⟨?_, ?_, ?_⟩
+  · apply inj
+    exact List.pairwise_reverse.2 ((nb a).imp (fun h e => h e.symm))
+  · rw [List.singleton_append, List.nodup_cons]
+    refine ⟨?_, inj _ (nb b)⟩
+    intro hm
+    obtain ⟨p, hp, e⟩ := List.mem_map.1 hm
+    obtain ⟨k, hk1, hk2, rfl⟩ := mem_below hp
+    have : (lcp2 a b).length = k := by
+      have := congrArg (fun x : WNode => x.2.length) e
+      simp at this; omega
+    omega
+  · intro x hx y hy e
+    subst e
+    obtain ⟨p, hp, rfl⟩ := List.mem_map.1 hx
+    rw [List.mem_reverse] at hp
+    obtain ⟨k, hk1, hk2, rfl⟩ := mem_below hp
+    rcases List.mem_cons.1 hy with e | hy
+    · have := congrArg (fun x : WNode => x.2.length) e
+      simp at this; omega
+    · obtain ⟨q, hq, e⟩ := List.mem_map.1 hy
+      obtain ⟨k', hk1', hk2', rfl⟩ := mem_below hq
+      have e2 : List.take k' b = List.take k a := by simpa using e
+      have hpre : List.take k a <+: lcp2 a b :=
+        prefix_lcp2 _ a b (List.take_prefix _ _) (e2 ▸ List.take_prefix _ _)
+      have := hpre.length_le
+      simp at this; omega
+
+/-- `walk(end, start)` is the mirror image -/
+theorem walk_mirror (s e : WNode) (up down : List WNode) (c : WNode)
+    (h : Spec.walkS s e = .ok up c down) : Spec.walkS e s = .ok down.reverse c up.reverse := by
+  obtain ⟨t, a⟩ := s
+  obtain ⟨u, b⟩ := e
+  simp only [Spec.walkS] at h ⊢
+  by_cases htu : t = u
+  · subst htu
+    simp only [ne_eq, not_true_eq_false, if_false, Res.ok.injEq] at h ⊢
+    obtain ⟨rfl, rfl, rfl⟩ := h
+    simp [lcp2_comm b a, List.map_reverse]
+  · simp [htu] at h
+
 end Anytree.Props.C15
